@@ -13,7 +13,7 @@ from harness.common import Check
 
 PID = "C22"
 TIERS = {"quick": dict(plan={"ASSGN2": 6, "XMLISH": 4, "NUM": 3, "CSVISH": 2}, calls=6, timeout=60),
-         "thorough": dict(plan={"ASSGN2": 50, "ASSGN": 20, "XMLISH": 30, "NUM": 20, "NULLABLE": 10, "CSVISH": 15, "LENGTHS": 8}, calls=15, timeout=200)}
+         "thorough": dict(plan={"ASSGN2": 20, "ASSGN": 8, "XMLISH": 12, "NUM": 8, "NULLABLE": 5, "CSVISH": 6, "LENGTHS": 4}, calls=12, timeout=120)}
 
 
 def outcomes(trace):
